@@ -9,6 +9,8 @@ S = {s['id']: s for s in SPECS}
 
 def run(rep, ctx):
     g = ctx.g
+    from .c01 import run_N_writer
+    run_N_writer(rep, g, ['write::line::'])
     run_specs(rep, ctx, 'C13')
     k1_pairing(rep, g, 'K1-line', S['w_line_instr'], [S['line_instr_parse_std'], S['line_instr_parse_ext']], 'DW_LN',
                strip_prefix=('DW_LNE_', ['B1', 'ULEB', 'B1']), b1_is_uleb_for=('SetDiscriminator',))
